@@ -167,6 +167,9 @@ func (c *Core) dispatching(bp BundleDescriptor) {
 			"routing": c.routing,
 		}).Info("Routing Algorithm has not allowed dispatching of the bundle")
 
+		// Keep the bundle marked for a later retry by a constraint. Otherwise, the next synchronisation of a
+		// descriptor for this bundle, e.g., when receiving it once more, resets its pending state.
+		c.bundleContraindicated(bp)
 		return
 	}
 
